@@ -61,6 +61,10 @@ def render(hist, skip=(), sfx=""):
             out.append("\t" * len(cur) + ("void g%d%s(void) {" % (b, sfx) if not cur else "{"))
             cur.append(b)
         ind = "\t" * len(cur)
+        if d["kind"] == "fname":     # a use of the predefined identifier __func__ (evaluated / operand of sizeof)
+            out.append(ind + ("fuse(%d, __func__);" % (1000 + i) if d["def"] == "eval" else "fsz(%d, sizeof __func__);" % (1000 + i)))
+            i += 1
+            continue
         group = [i]
         while i + len(group) - 1 < n and hist[i + len(group) - 1].get("join"):
             group.append(i + len(group))
@@ -74,6 +78,8 @@ def render(hist, skip=(), sfx=""):
     while cur:
         cur.pop()
         out.append("\t" * len(cur) + "}")
+    if any(d["kind"] == "fname" for d in hist):
+        out.insert(0, "void fuse(int, const char *); void fsz(int, unsigned long);")
     return "\n".join(out) + "\n"
 
 
@@ -116,6 +122,11 @@ def observe(il, ids):
             m = _LOCAL.match(d["name"])
             ident = m.group(1) if m else d["name"]
             items = d["items"]
+            if ident == "__func__" and m and len(items) == 2 and items[0]["k"] == "str" and items[1] == {"k": "num", "cls": "b", "vals": [0]} \
+                    and d["align"] is None and not d["export"] and not d["thread"]:
+                defs.append({"name": d["name"], "local": True, "ident": ident, "kind": "obj", "export": False, "thread": False,
+                             "zero": False, "at": None, "str": bytes(items[0]["bytes"]).decode("latin-1")})
+                continue
             if len(items) == 1 and items[0]["k"] == "z" and items[0]["n"] == 4:
                 zero, at = True, 0
             elif len(items) == 1 and items[0]["k"] == "num" and items[0]["cls"] == "w" and len(items[0]["vals"]) == 1:
@@ -145,6 +156,23 @@ def observe(il, ids):
                                 raise Malformed("store target %r" % (ins["args"][1],))
                         elif ins["op"] == "call":
                             ca = ins["cargs"]
+                            if ins["callee"]["t"] == "glob" and ins["callee"]["n"] in ("fuse", "fsz"):
+                                if len(ca) != 2 or ca[0].get("cls") != "w" or ca[0]["val"]["t"] != "int" or ca[1].get("cls") != "l":
+                                    raise Malformed("unexpected __func__ probe in $%s" % f["name"])
+                                at = ca[0]["val"]["v"] - 1000
+                                v = ca[1]["val"]
+                                if ins["callee"]["n"] == "fsz" and v["t"] == "int":
+                                    u = {"cls": "const", "name": "", "thr": False, "value": v["v"], "fn": f["name"]}
+                                elif ins["callee"]["n"] == "fuse" and v["t"] == "glob":
+                                    u = {"cls": "glob", "name": v["n"], "thr": v["thread"], "fn": f["name"]}
+                                else:
+                                    raise Malformed("unexpected __func__ probe argument in $%s" % f["name"])
+                                if at in uses:
+                                    raise Malformed("use %d seen twice" % at)
+                                if _LOCAL.match(u["name"]):
+                                    u["cls"] = "static"
+                                uses[at] = u
+                                continue
                             if len(ca) != 1 or ca[0].get("cls") != "w" or ca[0]["val"]["t"] != "int":
                                 raise Malformed("unexpected call in $%s" % f["name"])
                             at = ca[0]["val"]["v"] - 1000
@@ -168,11 +196,18 @@ def observe(il, ids):
                 raise Malformed("function $%s does not return its tag" % f["name"])
             defs.append({"name": f["name"], "local": bool(m), "ident": m.group(1) if m else f["name"], "kind": "func",
                          "export": f["export"], "thread": False, "zero": False, "at": at})
-    return {"defs": defs, "uses": uses}
+    names = [d["name"] for d in mod["data"]] + [f["name"] for f in mod["funcs"]]
+    return {"defs": defs, "uses": uses, "dup": sorted({n for n in names if names.count(n) > 1})}
 
 
-def compare(exp, obs):
+def compare(exp, obs, hist=None):
     """exp: an "ok" projection from TLC (defs, ndefs, uses); obs: observe() result.  -> None or a reason string"""
+    # no symbol may be defined twice (the model of a known deviation may itself predict a duplicate: then it is carried
+    # as two equal records in exp["defs"], which is a sequence in that case)
+    syms = [d["sym"] for d in exp["defs"] if d["ent"] == 0]
+    unexpected = [n for n in obs.get("dup", []) if syms.count(n) < 2]
+    if unexpected:
+        return "symbol defined more than once in the unit: %s" % ", ".join("$" + n for n in unexpected)
     if exp["ndefs"] != len(obs["defs"]):
         return "number of definitions: expected %d, emitted %d" % (exp["ndefs"], len(obs["defs"]))
     elink = sorted((d for d in exp["defs"] if d["ent"] == 0), key=lambda d: (d["sym"], d["zero"], d["at"]))
@@ -186,7 +221,11 @@ def compare(exp, obs):
             return "definition of %s: expected %s, emitted %s" % (e["sym"], show_def(e), show_def(o))
     name_of = {}          # entity (declaration index) -> emitted name
     for e, o in zip(estat, ostat):
-        if (e["id"], e["kind"], False, e["thread"], e["zero"]) != (o["ident"], o["kind"], o["export"], o["thread"], o["zero"]) or (not e["zero"] and e["at"] != o["at"]):
+        if e["id"] == "__func__" and o["ident"] == "__func__":
+            # object of the function containing the use at e["at"]; its value is that function's name (6.4.2.2)
+            if hist is not None and not re.match(r"^g%d(_\d+)?$" % hist[e["at"] - 1]["path"][0], o.get("str", "")):
+                return "__func__ of g%d has value %r" % (hist[e["at"] - 1]["path"][0], o.get("str"))
+        elif (e["id"], e["kind"], False, e["thread"], e["zero"]) != (o["ident"], o["kind"], o["export"], o["thread"], o["zero"]) or (not e["zero"] and e["at"] != o["at"]):
             return "block-scope static #%d: expected %s, emitted %s" % (e["ent"], show_def(e), show_def(o))
         name_of[("static", e["ent"])] = o["name"]
     if len(set(name_of.values())) != len(name_of):
@@ -201,6 +240,9 @@ def compare(exp, obs):
         if e["cls"] == "glob":
             if o["name"] != e["sym"]:
                 return "use after declaration %d refers to $%s, expected $%s" % (at, o["name"], e["sym"])
+        elif e["cls"] == "const":
+            if hist is not None and o.get("value") != len(o["fn"]) + 1:
+                return "sizeof __func__ in %s is %s" % (o["fn"], o.get("value"))
         elif e["cls"] in ("static", "auto"):
             key = (e["cls"], e["ent"])
             if name_of.setdefault(key, o["name"]) != o["name"]:
@@ -249,7 +291,7 @@ def judge(ctx, objdir, case, variant):
             obs = observe(out, None)
         except (ilparse.ILSyntaxError, Malformed) as ex:
             return "IL not as expected: %s" % ex
-        return compare(exp, obs)
+        return compare(exp, obs, hist)
 
     if spec["cls"] == "ub":
         return None
@@ -277,7 +319,7 @@ def gcc_observe(ctx, src, tag):
         syms = []
         for ln in nm.splitlines():
             f = [x.strip() for x in ln.split("|")]
-            if len(f) != 7 or _SCAF.match(f[0]) or f[0] in ("_GLOBAL_OFFSET_TABLE_", "__tls_get_addr"):   # toolchain artefacts of TLS access
+            if len(f) != 7 or _SCAF.match(f[0]) or (f[0] in ("_GLOBAL_OFFSET_TABLE_", "__tls_get_addr", "fuse", "fsz") or f[0].startswith("__func__.")):   # toolchain artefacts of TLS access
                 continue
             m = re.match(r"^(.*)\.(\d+)$", f[0])
             block_static = bool(m) and f[2] in "bd" and not f[0].startswith("lbl.")
@@ -301,7 +343,7 @@ def audit_compare(spec, g):
     got_l = sorted((s["name"], s["kind"], s["export"], s["thread"], s["zero"] if s["kind"] == "obj" else False) for s in g["syms"] if not s["undef"] and not s["blockstatic"])
     if exp_l != got_l:
         return "definitions with linkage: spec %s, gcc %s" % (exp_l, got_l)
-    exp_s = sorted((d["id"], d["thread"], d["zero"]) for d in spec["defs"] if d["ent"] != 0)
+    exp_s = sorted((d["id"], d["thread"], d["zero"]) for d in spec["defs"] if d["ent"] != 0 and d["id"] != "__func__")   # gcc's own __func__.N objects are not compared
     got_s = sorted((s["ident"], s["thread"], s["zero"]) for s in g["syms"] if s["blockstatic"])
     if exp_s != got_s:
         return "block-scope statics: spec %s, gcc %s" % (exp_s, got_s)
@@ -339,7 +381,7 @@ def gcc_batch(ctx, units, tag):
         nm = subprocess.run(["nm", "-f", "sysv", o], stdout=subprocess.PIPE, text=True).stdout
         for ln in nm.splitlines():
             f = [x.strip() for x in ln.split("|")]
-            if len(f) != 7 or _SCAF.match(f[0]) or f[0] in ("_GLOBAL_OFFSET_TABLE_", "__tls_get_addr"):
+            if len(f) != 7 or _SCAF.match(f[0]) or (f[0] in ("_GLOBAL_OFFSET_TABLE_", "__tls_get_addr", "fuse", "fsz") or f[0].startswith("__func__.")):
                 continue
             m = _GSYM.match(f[0])
             if not m:
@@ -725,6 +767,9 @@ def run(ctx):
     # B3. one declaration with an init-declarator list of up to 3 declarators x, y, z (objects and functions, every
     #     storage class, file and block scope), labelled and unlabelled declarators in every order
     stream(ctx, objdir, "MC_Linkage_decl_quick.cfg", "d", stats, workers=8, keep_units=150, keep_stride=9)
+    # B4. the predefined identifier __func__: 0..4 uses (evaluated / under sizeof only) in function bodies and nested
+    #     blocks of one or several functions, next to block-scope statics: one local object per function that evaluates it
+    stream(ctx, objdir, "MC_Linkage_fn_quick.cfg", "f", stats, workers=8)
     # C. random multi-identifier units
     r3, units3 = stream(ctx, objdir, "MC_Linkage_sim.cfg", "s", stats, simulate=1 if q else 24, depth=12, keep_units=100 if q else 400, workers=4 if q else 8)   # num is per worker; TLC checks (and so emits) every generated successor
     # vacuity guard: every rule of the specification and every named deviation occurred
